@@ -42,11 +42,11 @@ CLAIMED.update({
  "C12": dict(engine="regsim", cat="fault_enumeration", ref="DESIGN.md §3 C12",
    technique="deterministic simulation: crash/error enumeration over every storage call of block processing (incl. key-manager and cleanup writes outside the transaction), restart on surviving state, comparison with the uninterrupted run",
    text="Per generated block sequence an uninterrupted counting run fixes the M interruption points; each chosen point x {crash before, crash after, storage error} is executed with restart on the surviving database and resumption from last processed + 1; final registry state, nonces and usable/stored key shares must equal the uninterrupted run. Exhaustive over all points for short sequences, biased sampling otherwise.",
-   note="Durable state = committed database writes (process crash). One class of known finding (orphan account record of the third-party wallet) is listed; two genuine defects were repaired (fix: commits)."),
+   note="Every run also ends with a stale log-less block (must be refused), a restart and a comparison. Durable state = committed database writes (process crash). One class of known finding (orphan account record of the third-party wallet) is listed; two genuine defects were repaired (fix: commits)."),
  "C13": dict(engine="elsim", cat="exploration", ref="DESIGN.md §3 C13",
    technique="deterministic simulation: real ExecutionClient + go-ethereum rpc client against an in-memory fake node over net.Pipe in a synctest bubble; seeded heads, connection drops, request failures; history oracle",
    text="The real StreamLogs / FetchHistoricalLogs / reconnect / PackLogs and the real ethclient run against a generated chain served by go-ethereum's rpc.Server over net.Pipe; heads, idle drops, drops instead of replies, getLogs and subscribe failures, refused dials and fake-time back-off are injected one at a time; the delivered BlockLogs history is checked for order, completeness, exact content and range, plus bounded liveness after faults stop.",
-   note="One guarded hook (dial indirection, build tag verif). Request fault points sampled, no reorgs. A genuine cursor defect was repaired (fix: commit)."),
+   note="Failed eth_getLogs calls are answered with a rotation of realistic provider error texts. One guarded hook (dial indirection, build tag verif). Request fault points sampled, no reorgs. A genuine cursor defect was repaired (fix: commit)."),
  "C16": dict(engine="dutysim", cat="exploration", ref="DESIGN.md §3 C16",
    technique="deterministic simulation: real duty scheduler + handlers + slot ticker on a fake clock (synctest), scripted beacon node with changing assignments, reorg / indices-change / fetch-failure injection; three-valued reference",
    text="Real duties.Scheduler with attester, proposer and sync-committee handlers runs several epochs across a sync-committee period boundary under head events implying reorgs, indices changes, failing, slow and hung fetches; every ExecuteDuties call is judged against a MUST / MUST-NOT / MAY reference written from the statement (no double dispatch, only during the duty's slot, never absent from the latest fetched assignment, always when fetched in time).",
@@ -54,14 +54,14 @@ CLAIMED.update({
  "C17": dict(engine="qbftsim", cat="exploration", ref="DESIGN.md §3 C17",
    technique="deterministic simulation: real RoundTimer under the synctest fake clock with seeded arm/advance/re-arm/cancel programs; stale and duplicate timeout events injected at the real controller",
    text="Seeded programs of arm(increasing rounds)/advance/advance-to-deadline+-2ms/handler swap/cancel/burst re-arm against the real RoundTimer for all roles, callbacks judged with fake timestamps (once per arming, only the latest round, not before the documented deadline); fault-free multi-operator runs with lower-round, other-height, decided-instance and duplicate timeout events at Controller.OnTimeout which must change nothing.",
-   note="Deadline formula written from the documented rule. Burst re-arm is judged over 16 trials with one P because a defective timer's outcome depends on the runtime's select choice."),
+   note="Every consensus scenario ends by starting the next height and delivering the timeout event queued for the force-stopped instance (must be inert). Deadline formula written from the documented rule. Burst re-arm is judged over 16 trials with one P because a defective timer's outcome depends on the runtime's select choice."),
 })
 
 R = "deterministic simulation: real validators + duty runners + QBFT of a whole committee driven step by step (start duty, deliveries in any order, duplicates, re-addressed and stale messages, timeouts, faulty members); "
 CLAIMED.update({
  "C03": dict(engine="runnersim", cat="exploration", ref="DESIGN.md §3 C03",
    technique=R + "oracle on every key-manager signing call (spy) and every partial-signature broadcast",
-   text="4 (7) real Validators with real runners for the 5 consensus roles; every SignBeaconObject call is judged: pre-consensus proofs only inside the start of that duty and bound to its slot; post-consensus objects only after a quorum certificate for the duty's height reached the operator, contained in the certified value, value passes the role's (operator-local) validity check, at most once; every broadcast partial signature must stem from such a call. Directed macros (straggler, blackout) reach eviction and late-decided paths.",
+   text="4 (7) real Validators with real runners for the 5 consensus roles; every SignBeaconObject call is judged: pre-consensus proofs only inside the start of that duty and bound to its slot; post-consensus objects only after a quorum certificate for the duty's height reached the operator, contained in the certified value, value passes the role's (operator-local) validity check, at most once; every broadcast partial signature must stem from such a call. Directed macros (straggler, blackout, equivocating round-1 leader) reach eviction, late-decided and conflicting-proposal paths.",
    note="Decision certification is tracked by the simulator from valid commit/decided messages delivered (over-approximation). Key manager = spy around the spec test signer without slashing protection; one 'picky' operator has an operator-local attestation check."),
  "C05": dict(engine="runnersim", cat="exploration", ref="DESIGN.md §3 C05",
    technique=R + "independent BLS verification at every BeaconNode.Submit* and of every reconstructed pre-consensus signature; bounded liveness after deliveries complete",
@@ -76,7 +76,7 @@ CLAIMED.update({
 CLAIMED.update({
  "C10": dict(engine="runnersim", cat="exploration", ref="DESIGN.md §3 C10",
    technique="deterministic simulation: whole committees (4, 7) of real validators + runners + QBFT in discrete-event simulated time; every broadcast passes the receiving peer's real message validator at its simulated arrival time and the real validator queue; round timers fire at the deadline the real RoundTimer computes; omission-faulty operators and connectivity outages injected from the step program",
-   text="All 7 roles, 1-3 slots, per-link latency 1..250 ms, per-operator duty start lag; three fault modes (fault-free FIFO; <= f omission-faulty operators withholding chosen message kinds from chosen peers; additionally outages of arbitrary operator sets, which reach rounds up to 12 with prepared-value round changes and justified proposals). Oracle at every (message emitted by a correct operator's real code, correct receiving peer incl. a non-committee observer): verdict is never reject; in fault-free runs every verdict is accept. The signed-envelope (RSA) layer runs in three settings (never, always, activating at the next epoch boundary). One defect repaired (fix: b14331bc3), four known findings (five signatures) listed in known_findings.json.",
+   text="All 7 roles, 1-3 slots, per-link latency 1..250 ms, per-operator duty start lag; three fault modes (fault-free FIFO; <= f omission-faulty operators withholding chosen message kinds from chosen peers; additionally outages of arbitrary operator sets, which reach rounds up to 12 with prepared-value round changes and justified proposals; directed schedules 'lone-prepared' and 're-lead' build the states in which one operator alone holds a prepared value or the round-1 leader leads again with another value). Oracle at every (message emitted by a correct operator's real code, correct receiving peer incl. a non-committee observer): verdict is never reject; in fault-free runs every verdict is accept. The signed-envelope (RSA) layer runs in three settings (never, always, activating at the next epoch boundary). One defect repaired (fix: b14331bc3), four known findings (five signatures) listed in known_findings.json.",
    note="A correct peer is assumed to know the validator's share and duties. p2pNetwork.Broadcast's envelope step (6 lines) is re-implemented in the transport stub with the real operator keys. The consumer loop of the validator queue (state, filter) is re-implemented around the real queue and prioritizer. Lost messages are never delivered late."),
 })
 
